@@ -107,12 +107,14 @@ theorem swissquote_rows (a : Swissquote.Accts) (ok : AcctsOK a) : ∀ (ls : List
           subst h1 h2
           have es := R.sym sym hsym
           refine All2.cons ?_ (ih _ _ _ hrel hrec)
-          rw [← R.date, ← R.net, ← R.fee, ← R.qty, ← R.cur, ← es]
+          rw [← R.date, ← R.net, ← R.qty, ← R.cur, ← es]
           refine mkTx_matches _ _ _ _ _ _ ?_ (by simp)
           intro c'
-          split
-          · exact effect_trade a.account a.trading a.fee ok.trading ok.fee _ _ _ _ _ c'
-          · exact effect_trade a.account a.trading a.fee ok.trading ok.fee _ _ _ _ _ c'
+          by_cases hv : fldD l 2 = "Verkauf"
+          · simp only [hv, if_true]
+            exact effect_trade a.account a.trading a.fee ok.trading ok.fee _ _ _ _ _ c'
+          · simp only [hv, if_false]
+            exact effect_trade a.account a.trading a.fee ok.trading ok.fee _ _ _ _ _ c'
       · have hb : (decide (fldD l 2 = "Kauf") || decide (fldD l 2 = "Verkauf")) = false := by
           simp only [not_or] at htrade; simp [htrade.1, htrade.2]
         simp only [hb, Bool.false_eq_true, if_false] at hstep ⊢
